@@ -869,8 +869,11 @@ func main() {
 	rn.flush()
 	rn.icptFamily(ic, r, 3, f.N(2, 3), f.N(200, 6000))
 	rn.flush()
-	rn.resourceOptionFamily(tie, r, f.N(3, 4), f.N(300, 6000))
-	rn.clockRangeFamily(tie, r, f.N(400, 8000))
+	// own random stream: the families below were added in round 8 and must not shift the draws of the older ones
+	// (the forced overlaps find some seeded changes only in particular rounds)
+	r8 := rand.New(rand.NewSource(int64(f.Seed)*7919 + 8))
+	rn.resourceOptionFamily(tie, r8, f.N(3, 4), f.N(300, 6000))
+	rn.clockRangeFamily(tie, r8, f.N(400, 8000))
 	rn.flush()
 	rn.do(config{}, exhaustedSeq(), tie, "id-exhaustion")
 	for i := 0; i < f.N(1500, 30000); i++ {
